@@ -524,6 +524,9 @@ int main(void) {
     log_epoch_secs = 1000000000;
     log_monotonic_secs = 1000;
     chunkqueue_set_tempdirs_default(NULL, 0);
+  #ifdef HAVE_SPLICE
+    chunkqueue_internal_pipes(1); /*(as server.c does by default: enables http_response_append_splice())*/
+  #endif
 
     ev = ck_calloc(1, sizeof(*ev));
     ev->fdarray = ck_calloc(4096, sizeof(*ev->fdarray));
